@@ -162,6 +162,58 @@ pub fn run(ctx: &mut Ctx) {
             ctx.sample(json!({"case": c.id(), "text": crate::util::short(&text, 200), "expected_tree": crate::util::short(&c.nt.brief(), 300)}));
         }
     }
+    // keywords are case-insensitive for the parser (word keywords, word operators, and the words the grammar
+    // matches by text: PRIORITY, INTERVAL, action qualifiers, literal prefixes, units): every program with at most
+    // one deviation is parsed again with all of them in lower case and must give the same tree
+    {
+        use crate::lex::{spell, Class};
+        let hosts: Vec<&gram::Case> = cases.iter().filter(|c| c.labels.len() <= 1).collect();
+        let res: Vec<Option<(String, String)>> = hosts
+            .par_iter()
+            .map(|c| {
+                let mut lx = c.lx.v.clone();
+                let mut changed = false;
+                for l in lx.iter_mut() {
+                    let wordy = l.text.chars().all(|ch| ch.is_ascii_alphanumeric() || ch == '_') && l.text.chars().any(|ch| ch.is_ascii_uppercase());
+                    if wordy && (l.class == Class::Keyword || l.class == Class::Op || l.class == Class::LitPart) {
+                        l.text = l.text.to_ascii_lowercase();
+                        changed = true;
+                    }
+                }
+                if !changed {
+                    return None;
+                }
+                let text = spell(&lx).text;
+                match crate::util::catch(|| front::parse(&text, "case.st")) {
+                    Err(p) => Some((format!("panic@{}", p.loc), text)),
+                    Ok(Err(d)) => {
+                        // only programs whose canonical spelling parses are judged
+                        if front::parse(&c.text(), "case.st").is_ok() {
+                            Some((format!("rejected({})", d.code), text))
+                        } else {
+                            None
+                        }
+                    }
+                    Ok(Ok(lib)) => {
+                        if nt::diff(&c.nt.fold_case(), &nt::library(&lib).fold_case()).is_empty() || !nt::diff(&c.nt, &nt::library(&front::parse(&c.text(), "case.st").ok()?)).is_empty() {
+                            None
+                        } else {
+                            Some(("tree-differs".to_string(), text))
+                        }
+                    }
+                }
+            })
+            .collect();
+        for (c, r) in hosts.iter().zip(res.iter()) {
+            ctx.evaluations += 1;
+            ctx.transitions += 1;
+            if let Some((sym, text)) = r {
+                ctx.fail(&format!("keywords-in-lower-case/{}#{}", c.group, sym), &format!("{} with every keyword in lower case: {} :: {}", c.id(), sym, crate::util::short(text, 160)), json!({"mode":"text","text": text}));
+            } else {
+                ctx.outcome("keywords in lower case: same tree");
+            }
+        }
+    }
     // literals: the structured literal space of C09 (values are part of the tree the parser returns)
     let lits = crate::checks::c09::literals();
     let lit_res: Vec<Option<(String, String)>> = lits.par_iter().map(crate::checks::c09::judge).collect();
@@ -214,6 +266,13 @@ pub fn run(ctx: &mut Ctx) {
 }
 
 pub fn replay(case: &Value) -> Result<String, String> {
+    if case["mode"] == json!("text") {
+        let text = case["text"].as_str().ok_or("text")?;
+        return match front::parse(text, "case.st") {
+            Ok(_) => Ok("the text parses".into()),
+            Err(d) => Err(format!("rejected with {}", d.code)),
+        };
+    }
     if case["mode"] == json!("literal") {
         let pieces: Vec<String> = case["pieces"].as_array().ok_or("pieces")?.iter().map(|x| x.as_str().unwrap_or("").to_string()).collect();
         let l = crate::checks::c09::literals().into_iter().find(|l| l.pieces == pieces).ok_or("literal is not in the enumerated space any more")?;
